@@ -37,3 +37,22 @@ class c19_tag_ser:
         if name in self.fail_ids:
             return NotCompleted("FAIL", self, f"input {name} cannot be processed", source=aln)
         return aln
+
+
+# id_from_source functions for the option dimension of the resume clause (module level: apps record their arguments)
+APPLY_PREFIX = "batch7-"
+WRITER_PREFIX = "w-"
+
+
+def custom_apply_id(source):
+    """a caller supplied id_from_source for apply_to"""
+    from cogent3.app.data_store import get_unique_id
+
+    return APPLY_PREFIX + get_unique_id(source)
+
+
+def custom_writer_id(source):
+    """a different id_from_source given to the writer's constructor"""
+    from cogent3.app.data_store import get_unique_id
+
+    return WRITER_PREFIX + get_unique_id(source)
